@@ -63,6 +63,8 @@ func scenarios(c *core.Ctx) []*lakeh.JScenario {
 			mk("drop_vs_commit", "branches", 2, mainb1, []lakeh.JOp{rmkey("b1")}, []lakeh.JOp{tip("b1")}),
 			mk("rename_race", "pools", 2, pools, []lakeh.JOp{ren(2, "r")}, []lakeh.JOp{rmid(2), ins("q")}),
 			mk("pool_names", "pools", 2, pools, []lakeh.JOp{ins("x")}, []lakeh.JOp{ins("x")}, []lakeh.JOp{ren(2, "x")}),
+			// a pool is dropped while it is renamed away and its old name is taken by a new pool
+			mk("drop_vs_rename_create", "pools", 2, pools, []lakeh.JOp{rmid(2)}, []lakeh.JOp{ren(2, "r"), ins("q")}),
 		}
 	}
 	return []*lakeh.JScenario{
@@ -74,6 +76,7 @@ func scenarios(c *core.Ctx) []*lakeh.JScenario {
 		mk("drop_create_commit", "branches", 3, mainb1, []lakeh.JOp{rmkey("b1"), ins("b1")}, []lakeh.JOp{tip("b1")}, []lakeh.JOp{tip("main")}),
 		mk("rename_race", "pools", 99, pools, []lakeh.JOp{ren(2, "r")}, []lakeh.JOp{rmid(2), ins("q")}),
 		mk("pool_names", "pools", 3, pools, []lakeh.JOp{ins("x")}, []lakeh.JOp{ins("x")}, []lakeh.JOp{ren(2, "x")}),
+		mk("drop_vs_rename_create", "pools", 99, pools, []lakeh.JOp{rmid(2)}, []lakeh.JOp{ren(2, "r"), ins("q")}),
 		mk("pool_churn", "pools", 3, pools, []lakeh.JOp{ren(1, "q2"), ren(1, "p")}, []lakeh.JOp{rmid(2), ins("q2")}, []lakeh.JOp{ren(2, "z")}),
 	}
 }
